@@ -45,7 +45,12 @@ def describe(cls, seen):
 
 def get_path(obj, path):
     for p in path:
-        obj = obj[p] if isinstance(p, int) else getattr(obj, p)
+        if isinstance(p, int):
+            if p == 0 and isinstance(obj, (int, float)):
+                continue  # T[1] is rendered as a scalar descriptor by the Python back end: same wire layout
+            obj = obj[p]
+        else:
+            obj = getattr(obj, p)
     return obj
 
 
